@@ -15,7 +15,10 @@
  *       a real sqfs_dir_writer_t created with SQFS_DIR_WRITER_CREATE_EXPORT_TABLE: sqfs_dir_writer_add_entry() for the
  *       first n-1 pairs, then sqfs_dir_writer_write_export_table() with the last pair as root, into a memory file
  *       that already holds <off> bytes; compressor = the one configured by cinit (none: blocks stored raw)
- *   fnmatch <pathglob 0/1> <pattern-hex> <path-hex>  -> 0 | 1       (libc, what sort_by_file.c calls)
+ *   fnmatch <pathglob 0/1> <pattern-hex> <path-hex>  -> 0 | 1       libc's fnmatch with the flag word the man page *documents*
+ *       (FNM_PATHNAME for `glob`, 0 for `glob_no_path`, nothing else): the specification side.  What sort_by_file.c really
+ *       passes to fnmatch is observed through `sort` (one-line sort files `1 [glob] "pattern"`, priority 1 = selected; part A2
+ *       of tools/checks/c17.py) and compared with this op, a hand-written table and a reference matcher
  *   cinit <compressor|raw> <block size>              -> ok            (block compressor configured as sqfs_writer_init does; raw = none)
  *   cmp <data-hex>                                   -> <out-hex> | - (do_block: "-" = returned 0, keep the input)
  *                                                                      (size oracle for the model's Codec parameter)
